@@ -64,6 +64,16 @@ func c12Cause(expr, class string, d utils.Source, owner *promParser.BinaryExpr, 
 	case "or-rhs-never-used":
 		if owner.VectorMatching != nil && owner.VectorMatching.On && len(owner.VectorMatching.MatchingLabels) == 0 {
 			// what makes pint believe the left side always returns
+			hasAnd := false
+			promParser.Inspect(owner.LHS, func(n promParser.Node, _ []promParser.Node) error {
+				if b, ok := n.(*promParser.BinaryExpr); ok && b.Op == promParser.LAND {
+					hasAnd = true
+				}
+				return nil
+			})
+			if hasAnd {
+				return "or-with-on():left-side-has-and"
+			}
 			return "or-with-on():left-side-shape=" + astShape(owner.LHS, 1)
 		}
 		return "or-left-side-always-returns"
@@ -474,6 +484,11 @@ func c12Check(cs c12Case) (out c12Outcome) {
 						side = b.RHS
 					}
 					subs = append(subs, unionVariants(cs.Expr, b, side)...)
+				}
+				if class == "static-comparison" {
+					// a comparison with a union is folded per branch of the union
+					subs = append(subs, unionVariants(cs.Expr, b, b.LHS)...)
+					subs = append(subs, unionVariants(cs.Expr, b, b.RHS)...)
 				}
 				for vi, sub := range subs {
 					vec, isScalar, e := promfake.Instant(theEngine(), db, sub, engT)
